@@ -982,6 +982,18 @@ class Staircase(Pbox):
     def __array_ufunc__(self, ufunc, method, *inputs, **kwargs):
         if method != "__call__":
             return NotImplemented
+        # numpy scalar on the left of + - * / : use the reflected operator
+        binary_ops = {
+            np.add: ("__add__", "__radd__"),
+            np.subtract: ("__sub__", "__rsub__"),
+            np.multiply: ("__mul__", "__rmul__"),
+            np.true_divide: ("__truediv__", "__rtruediv__"),
+        }
+        if ufunc in binary_ops and len(inputs) == 2 and not kwargs:
+            forward, reflected = binary_ops[ufunc]
+            if inputs[0] is self:
+                return getattr(self, forward)(inputs[1])
+            return getattr(self, reflected)(inputs[0])
         if len(inputs) != 1 or inputs[0] is not self:
             return NotImplemented
         if "out" in kwargs and kwargs["out"] is not None:
